@@ -6,5 +6,7 @@ CHECKS = {
     "C05": dict(engine="e2_headers", bins=["e2_headers"], level="exploration", ns=True, prebuild=["prebuild-ebpf"], tools=["unshare", "ip", "clang"]),
     "C07": dict(engine="e2_attrib", bins=["e2_attrib"], level="model_checking", ns=True, prebuild=["prebuild-ebpf"], tools=["unshare", "ip", "clang"]),
     "C11": dict(engine="e2_audit", bins=["e2_audit"], level="exploration", ns=True, prebuild=["prebuild-ebpf"], tools=["unshare", "ip", "clang"]),
+    "C14": dict(engine="e2_transparent", bins=["e2_transparent"], level="exploration", ns=True, prebuild=["prebuild-ebpf"], tools=["unshare", "ip", "clang"]),
+    "C15": dict(engine="e2_transparent", bins=["e2_transparent"], level="exploration", ns=True, prebuild=["prebuild-ebpf"], tools=["unshare", "ip", "clang"]),
     "C02": dict(engine="e1_rbac", bins=["e1_rbac"], level="exploration"),
 }
